@@ -246,7 +246,14 @@ func runC08(t *fw.T) {
 		var res compiler.CompileResult
 		var plain string
 		if !t.Guard("compile with source map", func() map[string]any { return map[string]any{"source": rd.Src, "config": cm.String()} }, func() {
-			res = cm.Compile(po.Prog)
+			if t.Index%2 == 0 {
+				res = cm.Compile(po.Prog)
+			} else {
+				// the map of a Compiler's second compilation is held to the same standard as that of its first
+				k := cm.compiler()
+				k.Compile(po.Prog)
+				res = k.Compile(po.Prog)
+			}
 			plain = c.Compile(po.Prog).Code
 		}) {
 			continue
@@ -274,7 +281,7 @@ func init() {
 			"strings are compared by content, quote style aside; G-syn strings contain no escapes (C07 owns escapes)",
 		},
 		Strata: []*fw.Stratum{
-			{Name: "programs", Quick: 12000, Thorough: 100000, Run: runC08},
+			{Name: "programs", Quick: 60000, Thorough: 300000, Run: runC08},
 		},
 	})
 }
